@@ -1,8 +1,12 @@
 pub mod common;
 pub mod c02;
+pub mod c03;
+pub mod c04;
+pub mod c06;
+pub mod streamconf;
 
 use crate::engine::CheckDef;
 
 pub fn all() -> Vec<CheckDef> {
-    vec![c02::def()]
+    vec![c02::def(), c03::def(), c04::def(), c06::def()]
 }
